@@ -339,6 +339,20 @@ def failed_operation(handle, ff, df, akw, root, target, expected, with_index):
         out["problem"] = ["failing-operation-returned-normally", "an append whose %s fails returned normally" % (
             "data source" if ff["mode"] == "source" else "file call number %s" % ff.get("k"))]
         return out
+    def fresh_state():
+        fr = ParquetFile(target)
+        return [[rg.columns[0].file_path for rg in fr.fmd.row_groups], int(fr.fmd.num_rows), len(fr.row_groups), int(fr.count())]
+    s2_, fst = dsfs.guarded(fresh_state, READ_TIMEOUT)
+    try:
+        mine = [[rg.columns[0].file_path for rg in handle.fmd.row_groups], int(handle.fmd.num_rows), len(handle.row_groups), int(handle.count())]
+    except BaseException as e:      # noqa
+        mine = "%s: %s" % (type(e).__name__, str(e)[:100])
+    if s2_ == "ok" and mine != fst:
+        # DsHandle.v: after a failed operation the handle's state is the state before it = a fresh open's
+        out["problem"] = ["handle-metadata-differs-after-failed-operation",
+                          "after the failed operation (%s) the handle has [row-group paths, fmd.num_rows, len(row_groups), count()] = %s, a fresh open %s" % (
+                              out["raised"], str(mine)[:200], str(fst)[:200])]
+        return out
     s_, val = dsfs.guarded(lambda: frame_cells(ParquetFile(target).to_pandas(), with_index), READ_TIMEOUT)
     if s_ != "ok" or val != expected:
         out["problem"] = ["failed-append-through-handle-changed-content",
